@@ -143,6 +143,8 @@ def unbound_spec_names(fn_node, contract, module_env=None):
     import ast, re
     bound = set(_SPEC_GLOBALS) | set((module_env or {}).keys()) | set((contract.get('module_env') or {}).keys())
     bound |= set((contract.get('params') or {}).keys())
+    if contract.get('result_name'):
+        bound.add(contract['result_name'])
     for n in ast.walk(fn_node):
         if isinstance(n, ast.Name) and isinstance(n.ctx, (ast.Store, ast.Del)):
             bound.add(n.id)
